@@ -555,7 +555,7 @@ def csv_check(ck, c, sp, res, tok, replay):
     tags = {s["id"]: dict((t[0], t[2]) for t in s["tags"]) for s in tok["segs"]}
     roles = dict(sp["roles"])
     if sorted(r[0] for r in body) != sorted(tags) or any(
-            [r[1], r[2], r[3], r[4], r[5]] != [roles[r[0]], tags[r[0]].get("SN", "NA"), tags[r[0]].get("SO", "NA"), tags[r[0]]["BO"], tags[r[0]]["NO"]] for r in body):
+            [r[1], r[2], r[3], r[4], r[5]] != [roles.get(r[0]), tags[r[0]].get("SN", "NA"), tags[r[0]].get("SO", "NA"), tags[r[0]].get("BO"), tags[r[0]].get("NO")] for r in body):
         ck.violation("CSV of %s does not list every node once with its role and BO/NO" % c, dict(replay, csv=res["csv"].get(c)))
         return False
     return True
